@@ -1,3 +1,4 @@
+#![allow(dead_code)]
 //! owlmc - explicit-state model checking of owlchess against a reference model.
 //!
 //!   owlmc setup                 model self-validation (published perft tables)
